@@ -147,7 +147,8 @@ def run_case(case):
     I.install()
     order = I.default_order(spec)
     I.set_order(order)
-    base = B.build(spec)
+    share = bool(case.get("i", 0) % 2)    # every second model refers to IDs by the very same str objects (main_workplace_id=wp.ID)
+    base = B.build(spec, share_ids=share)
     try:
         B.run(base.project, spec)
     except Exception as e:
@@ -164,7 +165,7 @@ def run_case(case):
     for k in ks:
         # ---- in memory
         I.set_order(order)
-        m = B.build(spec)
+        m = B.build(spec, share_ids=share)
         h = Hist(spec, order=order, model=m)
         e = h.do(["pause", k])
         if e is None:
@@ -184,7 +185,7 @@ def run_case(case):
             res.violate("C15", "C15/memory-resume-differs", "pause at k=%d of %d and resume in memory: differs at %s (%r vs %r)" % (k, T, diff[0], diff[1], diff[2]), k=k)
         # ---- through a JSON file
         I.set_order(order)
-        m = B.build(spec)
+        m = B.build(spec, share_ids=share)
         h = Hist(spec, order=order, model=m)
         e = h.do(["pause", k])
         if e is not None:
